@@ -73,6 +73,11 @@ class SDtype(dtype):
         self.itemsize = ITEMSIZE[name]
         self.names = None
 
+    def __getattr__(self, name):
+        if name.startswith('__'):
+            raise AttributeError(name)
+        raise StubGap(f'{type(self).__name__}.{name} is not modelled')
+
     @property
     def base(self):
         return self
@@ -107,7 +112,7 @@ class SDtype(dtype):
 
 class StructDtype(dtype):
     def __init__(self, fields, *a, **k):
-        self.fields = []
+        self._flds = []
         for f in fields:
             nm, t = f[0], f[1]
             w = f[2] if len(f) > 2 else None
@@ -115,23 +120,44 @@ class StructDtype(dtype):
                 t = SDtype(t.__name__)
             if not isinstance(t, SDtype):
                 raise StubGap(f'field type {t!r}')
-            self.fields.append((nm, t, w))
-        self.names = tuple(f[0] for f in self.fields)
+            self._flds.append((nm, t, w))
+        self.names = tuple(f[0] for f in self._flds)
 
     def __getitem__(self, name):
-        for (nm, t, w) in self.fields:
+        for (nm, t, w) in self._flds:
             if nm == name:
                 return t
         raise KeyError(name)
 
     def width(self, name):
-        for (nm, t, w) in self.fields:
+        for (nm, t, w) in self._flds:
             if nm == name:
                 return w
         raise KeyError(name)
 
+    @property
+    def fields(self):
+        """numpy: mapping name -> (sub-dtype, offset); the sub-dtype of a sub-array field is stood for by (dtype, width)."""
+        out, off = {}, 0
+        for (nm, t, w) in self._flds:
+            out[nm] = ((t, w) if w else t, off)
+            off += t.itemsize * (w or 1)
+        return out
+
+    @property
+    def itemsize(self):
+        return sum(t.itemsize * (w or 1) for (nm, t, w) in self._flds)
+
+    def __len__(self):
+        return len(self._flds)
+
+    def __getattr__(self, name):
+        if name.startswith('__'):
+            raise AttributeError(name)
+        raise StubGap(f'structured dtype .{name} is not modelled')
+
     def __eq__(self, o):
-        return isinstance(o, StructDtype) and self.fields == o.fields
+        return isinstance(o, StructDtype) and self._flds == o._flds
 
     def __ne__(self, o):
         return not self.__eq__(o)
@@ -154,7 +180,27 @@ def issubdtype(dt, kind):
     raise StubGap('issubdtype kind')
 
 
-class ndarray:
+class _Flags:
+    """arr.flags: the arrays of the harness (and of the replays) are writable."""
+    writeable = True
+    c_contiguous = True
+
+    def __getattr__(self, name):
+        if name.startswith('__'):
+            raise AttributeError(name)
+        raise StubGap(f'flags.{name} is not modelled')
+
+
+class _NdMeta(type):
+    def __instancecheck__(cls, inst):
+        # iterating a structured row yields an ndarray (a view) for a sub-array field, a numpy scalar for a scalar field
+        if type.__instancecheck__(cls, inst):
+            return True
+        return cls.__name__ == 'ndarray' and type(inst).__name__ == 'Elem' and inst.width is not None
+
+
+class ndarray(metaclass=_NdMeta):
+    flags = _Flags()
     """Plain (non-structured) array: one source column."""
 
     def __init__(self, owner, column, a, b, dt, width=None, view=False, rows_from=None, extra_dims=0):
@@ -162,6 +208,11 @@ class ndarray:
         self.dtype, self.width, self.is_view = dt, width, view
         self.extra_dims = extra_dims          # dimensions beyond 2 (for the >2-D rejection path)
         self.rows_from = rows_from            # None: rows a..b of the column; ('bcast', row): every row is that row
+
+    def __getattr__(self, name):
+        if name.startswith('__'):
+            raise AttributeError(name)
+        raise StubGap(f'{type(self).__name__}.{name} is not modelled')
 
     @property
     def ndim(self):
@@ -328,6 +379,22 @@ class structarr(ndarray):
         else:
             raise ValueError('could not broadcast input array')
 
+    def view(self, dt=None, *a, **k):
+        """arr.view(other structured dtype): the same memory under other field names - field i of the target dtype shows
+        what field i of this array holds (numpy checks only the sizes).  Modelled for equal layouts only."""
+        if not isinstance(dt, StructDtype) or a or k:
+            raise StubGap(f'view({dt!r}) is not modelled')
+        mine = [(t, w or None) for (nm, t, w) in self.dtype._flds]
+        theirs = [(t, w or None) for (nm, t, w) in dt._flds]
+        if mine != theirs:
+            raise StubGap('view() to a dtype with another layout is not modelled')
+        olds = [self.fields[nm] for nm in self.dtype.names]
+        nf = {}
+        for i, nm in enumerate(dt.names):
+            f = olds[i]
+            nf[nm] = Field(f.owner, f.column, f.a, f.dt, f.width, f.bcast, f.src_dt, f.zero)
+        return structarr(self.owner, self.n, dt, nf, True, self.a0)
+
     def __iter__(self):
         for i in range(self.n):
             yield Row(self, i)
@@ -393,18 +460,23 @@ class FieldFill:
 def zeros(n, dtype=None):
     if not isinstance(dtype, StructDtype):
         raise StubGap('np.zeros of a non-structured dtype')
-    fields = {nm: Field('lib', '<zeros>', 0, t, w, False, None, True) for (nm, t, w) in dtype.fields}
+    fields = {nm: Field('lib', '<zeros>', 0, t, w, False, None, True) for (nm, t, w) in dtype._flds}
     return structarr('lib', n, dtype, fields)
 
 
 class Row:
     """np.void: one row of a structured array."""
 
+    def __getattr__(self, name):
+        if name.startswith('__'):
+            raise AttributeError(name)
+        raise StubGap(f'{type(self).__name__}.{name} is not modelled')
+
     def __init__(self, arr, i):
         self.arr, self.i = arr, i
 
     def __iter__(self):
-        for (nm, t, w) in self.arr.dtype.fields:
+        for (nm, t, w) in self.arr.dtype._flds:
             f = self.arr.fields[nm]
             row = f.a if f.bcast else f.a + self.i
             if w is None:
@@ -417,6 +489,12 @@ class Row:
 
 class Elem:
     """What iterating a row yields for one slot."""
+    flags = _Flags()
+
+    def __getattr__(self, name):
+        if name.startswith('__'):
+            raise AttributeError(name)
+        raise StubGap(f'{type(self).__name__}.{name} is not modelled')
 
     def __init__(self, owner, column, row, dt, width, is_view, zero=False):
         self.owner, self.column, self.row, self.dtype, self.width, self.is_view, self.zero = \
